@@ -89,6 +89,9 @@ private:
 
     void initialize()
     {
+        // _mark as armed by the backend's constructor belongs to a frame that is gone
+        if( setjmp( this->_mark )) { this->raise_error(); }
+
         this->get()->dct_method = this->_settings._dct_method;
 
         io_error_if( jpeg_start_decompress( this->get() ) == false
